@@ -1,3 +1,3 @@
 # one generator function per generated Coq file; each yields (filename, coq text, json twin)
-from . import ns, chars, userfield, sites, stylerefs, grammar
-ALL = [ns.gen, chars.gen, userfield.gen, sites.gen, stylerefs.gen, grammar.gen]
+from . import ns, chars, userfield, sites, stylerefs, grammar, converters
+ALL = [ns.gen, chars.gen, userfield.gen, sites.gen, stylerefs.gen, grammar.gen, converters.gen]
